@@ -652,6 +652,8 @@ class System:
             return m.currentspace
 
     def close_model(self, model):
+        if self.models.get(model.name) is not model:
+            return      # already closed: the name may belong to another model
         model.refmgr.del_all_spec()
         del self.models[model.name]
         if self.currentmodel is model:
